@@ -1,6 +1,8 @@
 import J5V.Bcl.FmtProofs
 import J5V.Bcl.LexShapeProofs
 import J5V.Bcl.DescProofs
+import J5V.Bcl.PreserveProofs
+import J5V.Bcl.IdemProofs
 import J5V.Generated.BcltokensFacts
 import J5V.Generated.BclunicodeFacts
 /-!
@@ -20,10 +22,8 @@ satisfies it: a space, an operator, a newline, or nothing).
 namespace J5V.Props.C09
 open J5V.Bcl
 
-/-- what it means that lexing `src ++ rest` reads exactly one token `(ty, lit)` and stops before `rest` -/
-def LexesTo (cls : Cls) (c : Cur) (src rest : List Rune) (ty : TokenType) (lit : List Rune) : Prop :=
-  (nextToken cls c (src ++ rest)).err = none ∧ (nextToken cls c (src ++ rest)).tok.ty = ty ∧
-    (nextToken cls c (src ++ rest)).tok.lit = lit ∧ (nextToken cls c (src ++ rest)).rest = rest
+/-! `LexesTo cls c src rest ty lit` (defined in `J5V.Bcl.FmtInv`): lexing `src ++ rest` from lexer state `c`
+reads exactly one token `(ty, lit)` without error and stops before `rest`. -/
 
 /-- STRING: every literal (quotes, backslashes, newlines, tabs, control and non-printable characters,
 any Unicode), any following text. -/
@@ -107,24 +107,16 @@ theorem C09_token_inv_operator (cls : Cls) (c : Cur) (tok : Token) (r : Rune)
     LexesTo cls c (tokenSource tok) rest tok.ty tok.lit := by
   have : tokenSource tok = tok.lit := by
     unfold tokenSource
-    have : tok.ty.isOperator = true := by
-      unfold operatorOf at hop
-      repeat' split at hop
-      all_goals first | (cases hop) | (injection hop with hop; rw [← hop]; rfl)
+    have : tok.ty.isOperator = true := operatorOf_isOperator hop
     cases hty : tok.ty <;> simp_all [TokenType.isOperator]
   rw [this, hl]
   exact nextToken_operator cls c r tok.ty hop rest
 
 /-! ## All kinds at once, for exactly the tokens the lexer produces -/
 
-/-- what may follow the rendered token, by kind (what `Fmt` emits after a token always satisfies it) -/
-def FollowOK (cls : Cls) (ty : TokenType) (rest : List Rune) : Prop :=
-  match ty with
-  | .regex => rest.head? ≠ some cSLASH
-  | .ident | .bool => IdentStop cls rest
-  | .int | .decimal => NumberStop cls rest
-  | .comment | .description => LineEnd rest
-  | _ => True
+/-! `FollowOK cls ty rest` (defined in `J5V.Bcl.FmtInv`): what may follow the rendered token, by kind — REGEX:
+not `/`; IDENT / BOOL: no letter, digit or `_`; INT / DECIMAL: no digit or `.`; COMMENT / DESCRIPTION: end
+of line; other kinds: anything. What `Fmt` emits after a token always satisfies it (`C09_line_inv`). -/
 
 /-- Every token of an error-free lex has a literal of the shape of its kind (`TokLitWF`). -/
 theorem C09_lexed_tokens_wf (cls : Cls) (ff : Bool) (src : List Rune) (ts : List Token)
@@ -188,6 +180,98 @@ theorem C09_description_reflow_stable (cls : Cls) (hsp : cls.isSpace cSP = true)
       reformatDescription cls v maxWidth :=
   reformat_stable cls hsp v maxWidth
 
+/-! ## Whole files
+
+`ClsOK cls` is what the whole-file theorems need from the classifier: `' '` and tab are white space,
+and space, newline, tab and the operator characters `= { } [ ] . , : + ! ?` are neither letters nor
+digits (Go's tables satisfy it: `C09_src_sep_class` below).
+
+`Token.erase`, `Fragment.erase`, … set every position to `0:0` and keep everything else; `File.equiv cls f' f`
+(and `Fragment.equivList`) say that two trees (fragment lists) are equal up to positions — the same blocks with the
+same type, tags, marks, qualifiers, header description and trailing comment in the same nesting, the same
+assignments with identical keys, operators and literal values — and that stand-alone descriptions have the same
+words and paragraph breaks (`DescEquiv`, the notion of `C09_description_words`). -/
+
+/-- **Line lemma**: the text of a part list `parts.flatMap tokenSource` (the formatter's single spaces are parts
+of kind SPACE) in front of any `tail` lexes to exactly the non-space parts (same kinds as the lexer assigns, same
+literals), provided adjacent parts do not run into each other (`PartsOK`: every non-space part has a literal of the
+shape of its kind and is followed by admissible text) — which holds for the token lists the formatter builds for
+a header and an assignment (`headerTokens_partsOK`, `assignTokens_partsOK`, used in `C09_fragment_inv`). -/
+theorem C09_line_inv (cls : Cls) (hcls : ClsOK cls) (ps : List Token) (c : Cur) (tail : List Rune)
+    (h : PartsOK cls ps tail) :
+    ∃ new c', new.map Token.erase = canonParts ps ∧
+      LexSeg cls c (ps.flatMap tokenSource) tail new c' :=
+  LexSeg.parts hcls ps c tail h
+
+/-- **The walker is position-independent**: walking tokens whose positions have been erased gives the erased
+result (tree, diagnostics classes, or panic) — the tree depends only on kinds, literals and their order. -/
+theorem C09_walk_position_free (ff : Bool) (ts : List Token) :
+    walk ff (ts.map Token.erase) = (walk ff ts).erase :=
+  walk_erase ff ts
+
+/-- every fragment the formatter gets from an accepted source has the shape `FragWF` (identifiers are
+identifier literals, tags are a reference or a string with an optional mark, values in arrays are literals that do
+not end the line, …) — the hypothesis of `C09_fragment_inv` is what the walker produces -/
+theorem C09_fragments_wf (cls : Cls) (src : List Rune) (frags : List Fragment)
+    (h : collectFragments cls src = .ok frags) : ∀ f ∈ frags, FragWF cls f :=
+  collectFragments_fragWF cls src frags h
+
+/-- **One fragment** (header, close, assignment, description, comment): the text `fmtFragment` prints for it — at
+any indent, from any lexer state, in front of any text — lexes to tokens from which `nextFragment` reads a
+fragment denoting the same thing. (`rest`: the tokens that follow; after a stand-alone description they must not
+start with a DESCRIPTION token, which `Fmt` guarantees by the blank line it keeps between two descriptions.) -/
+theorem C09_fragment_inv (cls : Cls) (hcls : ClsOK cls) (indent : Nat) (f : Fragment)
+    (hwf : FragWF cls f) (c : Cur) (tail : List Rune) :
+    ∃ new c', LexSeg cls c (fmtFragment cls indent f).1.newText tail new c' ∧
+      ∀ (prev : Option Token) (rest : List Token) (pfuel : Nat),
+        (∀ d, f = .desc d → headTy rest ≠ some .description) → 2 * new.length ≤ pfuel →
+        ∃ f' w', nextFragment pfuel ⟨prev, new ++ rest⟩ = .ok (some f') w' ∧
+          Fragment.equiv cls f' f :=
+  fragment_roundtrip cls hcls indent f hwf c tail
+
+/-- **Fragments are preserved** (this includes the comments, which the tree drops): if the formatter's front end
+accepts `src` with fragments `frags`, then `Fmt` succeeds, and its output is accepted with fragments that denote the
+same: the same sequence of headers, closing braces, assignments, comments and descriptions. -/
+theorem C09_preserves_fragments (cls : Cls) (hcls : ClsOK cls) (src : List Rune)
+    (frags : List Fragment) (h : collectFragments cls src = .ok frags) :
+    ∃ out frags', fmt cls src = .ok out ∧ collectFragments cls out = .ok frags' ∧
+      Fragment.equivList cls frags' frags := by
+  obtain ⟨hfmt, ts', frags', hts', _, hwk', hnorm⟩ := fmt_roundtrip cls hcls src frags h
+  exact ⟨_, frags', hfmt, collectFragments_of cls _ ts' frags' [] hts' hwk',
+    normFrags_equiv cls hcls.spSpace frags frags' 0 hnorm⟩
+
+/-- **The formatter preserves the document** — FULL: for every classifier with `ClsOK`, every source (any runes),
+both parser modes: if `ParseFile` accepts `src` with tree `f`, then `Fmt` succeeds and `ParseFile` accepts its
+output with a tree `f'` denoting the same document (`File.equiv`). -/
+theorem C09_preserves (cls : Cls) (hcls : ClsOK cls) (src : List Rune) (ff : Bool) (f : File)
+    (h : parseFile cls src ff = .tree f) :
+    ∃ out, fmt cls src = .ok out ∧ ∃ f', parseFile cls out ff = .tree f' ∧ File.equiv cls f' f :=
+  parse_roundtrip cls hcls src ff f h
+
+/-- **The formatter's output is accepted by the parser** (corollary) -/
+theorem C09_output_parses (cls : Cls) (hcls : ClsOK cls) (src : List Rune) (ff : Bool) (f : File)
+    (h : parseFile cls src ff = .tree f) :
+    ∃ out f', fmt cls src = .ok out ∧ parseFile cls out ff = .tree f' := by
+  obtain ⟨out, h1, f', h2, _⟩ := C09_preserves cls hcls src ff f h
+  exact ⟨out, f', h1, h2⟩
+
+/-- **Formatting the output a second time changes nothing** — FULL: for every classifier with `ClsOK` and every
+source (any runes) on which `Fmt` succeeds — in particular every source the parser accepts (`C09_preserves`) —
+`Fmt` of the output is the output. (Text of every fragment: the formatter's text does not depend on positions, and
+re-flowing a re-flowed description is stable (`C09_description_reflow_stable`); blank lines: the fragments read
+back from the output start / end on lines that reproduce the 0 / ≥ 1 blank-line decision.) -/
+theorem C09_idempotent (cls : Cls) (hcls : ClsOK cls) (src out : List Rune)
+    (h : fmt cls src = .ok out) : fmt cls out = .ok out :=
+  fmt_idempotent cls hcls src out h
+
+/-- the property as stated: accepted source ⇒ output accepted, same document, and a fixed point of `Fmt` -/
+theorem C09_formatter (cls : Cls) (hcls : ClsOK cls) (src : List Rune) (ff : Bool) (f : File)
+    (h : parseFile cls src ff = .tree f) :
+    ∃ out f', fmt cls src = .ok out ∧ parseFile cls out ff = .tree f' ∧ File.equiv cls f' f ∧
+      fmt cls out = .ok out := by
+  obtain ⟨out, h1, f', h2, h3⟩ := C09_preserves cls hcls src ff f h
+  exact ⟨out, f', h1, h2, h3, C09_idempotent cls hcls src out h1⟩
+
 /-! ## Non-vacuity -/
 
 /-- a description with odd spacing, a tab, leading and repeated blank lines, re-flowed at width 6 -/
@@ -197,6 +281,17 @@ example : canon (itemsOf asciiCls (splitOn cNL (ofAscii "\n aa   bb\tcc\n\n\n dd
     [.word (ofAscii "aa"), .word (ofAscii "bb"), .word (ofAscii "cc"), .blank, .word (ofAscii "dd")] := by
   decide +kernel
 
+
+/-- the ASCII classifier meets `ClsOK` -/
+example : ClsOK asciiCls := ⟨by decide, by decide, by decide⟩
+/-- a source with every fragment kind, tags with marks, qualifiers, nested arrays, a reference value, trailing
+comments, a re-flowed description, blank-line runs: it is accepted, `Fmt` succeeds and changes it -/
+def demoSrc : List Rune := ofAscii
+  "foo b.c \"x\" ! q :? \"w\" { // c\n a = [1, /r//x/, [b.c]] // t\n\n\n | one   two\n | three\n x.y += /* bc */\n}\n| d1\n\n| d2\nh | hd\na = // vc\n"
+example : (match parseFile asciiCls demoSrc true with | .tree _ => true | _ => false) = true := by
+  decide +kernel
+example : (match fmt asciiCls demoSrc with | .ok out => decide (out ≠ demoSrc) | _ => false) = true := by
+  decide +kernel
 
 /-- `a/b"c` is a well-formed regex literal -/
 example : RegexLitWF [97, 47, 98, 34, 99] :=
@@ -234,6 +329,11 @@ theorem C09_src_quoteString : quoteStringBody =
 /-- in Go's tables `' '` is white space (bit 1) — the classifier hypothesis of the DESCRIPTION and
 description-reflow theorems -/
 theorem C09_src_space_class : J5V.Generated.Bclunicode.asciiClass.getD 32 0 % 2 = 1 := by decide
+/-- in Go's tables `' '` and tab are white space (bit 1), and space, newline, tab and the operator characters are
+neither digits (bit 2) nor letters (bit 4) — the classifier hypothesis `ClsOK` of the whole-file theorems -/
+theorem C09_src_sep_class :
+    J5V.Generated.Bclunicode.asciiClass.getD 32 0 % 2 = 1 ∧ J5V.Generated.Bclunicode.asciiClass.getD 9 0 % 2 = 1 ∧
+    ∀ r ∈ J5V.Bcl.sepRunes, (J5V.Generated.Bclunicode.asciiClass.getD r 0 / 2) % 4 = 0 := by decide
 theorem C09_src_description : descriptionWordSplit = "strings.Fields(line)" ∧
     descriptionConds = ["strings.TrimSpace(line) == \"\"", "pend != \"\"",
       "!lastWasEmpty && len(linesOut) > 0", "pend == \"\"", "len(pend)+len(word) > maxWidth",
